@@ -393,6 +393,7 @@ func (g *gen) inSendActions(c *dbCase) {
 		} else {
 			a.Key = fmt.Sprintf("%s:%sw%d", cd.s.db, cd.s.prefix, i)
 			a.Payload = []byte(fmt.Sprintf(`J{"Name":"written inside send","N":%d,"B":true}`, 5+i))
+			a.TTL = rapid.IntRange(0, 2).Draw(t, "insend_ttl") == 0
 		}
 		c.InSend = append(c.InSend, a)
 	}
